@@ -141,9 +141,13 @@ def search(seed=0, N=300):
                     diag = WiringDiagram()
                     for m in order:
                         diag.add_module(ModuleSpec(name=m, inputs={"i": T0}, outputs={"o": T0}))
+                    # the executor may be built before the diagram is (fully) wired: execute() must see the wires as they are when it runs
+                    late = (n % 3 == 0)
+                    ex = DiagramExecutor(diag) if late else None
                     for a, b in ws:
                         diag.connect(a, "o", b, "i")
-                    ex = DiagramExecutor(diag)
+                    if ex is None:
+                        ex = DiagramExecutor(diag)
                     seen, order_run = {}, []
                     for m in names:
                         ex.register_module(m, (lambda m: (lambda inputs: (seen.__setitem__(m, inputs["i"].value), order_run.append(m), {"o": "from-" + m})[2]))(m))
@@ -169,11 +173,11 @@ def search(seed=0, N=300):
                     except WiringError:
                         raised = True
                     if must_raise and not raised:
-                        return n, (f"diagram declared {list(order)} wires {ws} external {sorted(ext)}: {'cycle' if cyc else 'a port without exactly one source'} "
+                        return n, (f"diagram declared {list(order)} wires {ws}{' (wired after the executor was built)' if late else ''} external {sorted(ext)}: {'cycle' if cyc else 'a port without exactly one source'} "
                                    f"but it was executed in order {rep.execution_order}")
                     if not must_raise:
                         if raised:
-                            return n, f"well-formed diagram declared {list(order)} wires {ws} external {sorted(ext)} was refused"
+                            return n, f"well-formed diagram declared {list(order)} wires {ws}{' (wired after the executor was built)' if late else ''} external {sorted(ext)} was refused"
                         for m in names:
                             src = sources[m][0]
                             want = "ext-" + m if src == "ext" else "from-" + src
